@@ -75,6 +75,7 @@ func runC17(c *Ctx) {
 	ruleSizeGuard(c, "slice")
 	ruleConstIndex(c, "slice")
 	ruleOffsetSiblings(c)
+	ruleInPlaceWrites(c)
 	// a count or index is never bounded by the CAPACITY of an input: what lies between len and cap is not part of it
 	c.rule("R-NO-CAP-BOUND", 0, "no comparison in package slice bounds a count or index by cap(input) (floor 0: the unchanged tree has none)")
 	for _, fn := range P.PkgFuncs("slice") {
@@ -619,4 +620,73 @@ func ruleOffsetSiblings(c *Ctx) {
 			c.judge(good, "R-OFFSET-SIBLING", fnName(fn)+":adjusts negative offsets", bo.Pos(), "i += n exactly when i < 0", fmt.Sprintf("%s adds the length when i %s %d: offset 0 is turned into the length (the end of the slice instead of its start)", fn.Name(), guard.Op, k))
 		})
 	}
+}
+
+// ruleInPlaceWrites (R-INPLACE-WRITES): the exported functions of package slice that return nothing and take a slice
+// exist to change that slice in place (Reverse, Rotate, Zero): each of them writes through its parameter — an element
+// store, or a call that is handed the slice — on some path.  A body that does neither does nothing at all.
+func ruleInPlaceWrites(c *Ctx) {
+	c.rule("R-INPLACE-WRITES", 0, "an exported function of package slice with a slice parameter and no result writes through that parameter")
+	for _, fn := range c.P.PkgFuncs("slice") {
+		if fn.Parent() != nil || fn.Object() == nil || !fn.Object().Exported() || fn.Signature.Results().Len() != 0 || len(fn.Params) == 0 {
+			continue
+		}
+		p := ssa.Value(fn.Params[0])
+		if !isSliceLike(p.Type()) {
+			continue
+		}
+		writes := false
+		for _, f := range withClosures(fn) {
+			allInstrs(f, func(in ssa.Instruction) {
+				switch x := in.(type) {
+				case *ssa.Store:
+					if ia, ok := x.Addr.(*ssa.IndexAddr); ok && newOrig(f).of(ia.X).hasParam(0) {
+						writes = true
+					}
+				case *ssa.Call:
+					for _, a := range x.Call.Args {
+						if a == p {
+							if b, isB := x.Call.Value.(*ssa.Builtin); isB && (b.Name() == "len" || b.Name() == "cap") {
+								continue
+							}
+							writes = true
+						}
+						if ct, ok := a.(*ssa.ChangeType); ok && ct.X == p {
+							writes = true
+						}
+					}
+				}
+			})
+		}
+		c.sawFn(fnName(fn))
+		c.judge(writes, "R-INPLACE-WRITES", fnName(fn)+":writes its argument", fn.Pos(), "an element store or a call handed the slice", fn.Name()+" returns nothing and never writes through (or hands on) the slice it was given: it has no effect at all")
+	}
+}
+
+// isSliceLike: a slice type, or a type parameter whose constraint is ~[]T.
+func isSliceLike(t types.Type) bool {
+	if _, ok := t.Underlying().(*types.Slice); ok {
+		return true
+	}
+	tp, ok := types.Unalias(t).(*types.TypeParam)
+	if !ok {
+		return false
+	}
+	iface, ok := tp.Constraint().Underlying().(*types.Interface)
+	if !ok {
+		return false
+	}
+	for i := 0; i < iface.NumEmbeddeds(); i++ {
+		if u, ok := iface.EmbeddedType(i).(*types.Union); ok {
+			for j := 0; j < u.Len(); j++ {
+				if _, ok := u.Term(j).Type().Underlying().(*types.Slice); ok {
+					return true
+				}
+			}
+		}
+		if _, ok := iface.EmbeddedType(i).Underlying().(*types.Slice); ok {
+			return true
+		}
+	}
+	return false
 }
